@@ -1,3 +1,4 @@
+#![allow(dead_code, unused_macros, unused_imports)]
 //! Macro-instantiated tables of every (codec, K, storage) k-mer type, behind a thin generic shim that
 //! returns plain data to non-generic oracle code.
 
@@ -503,158 +504,206 @@ macro_rules! arms2 {
 
 /// every storage: None when the (codec, K, storage) type is not in the tables
 pub fn kcall(id: CodecId, k: usize, st: St, req: &KReq) -> Option<R<KRes>> {
-    use CodecId::*;
-    match (id, st) {
-        (Dna, St::Usize) => arms!(kgen, DnaC, usize, k, req, [1, 2, 3, 4, 5, 6, 7, 8, 9, 10, 11, 12, 13, 14, 15, 16, 17, 18, 19, 20, 21, 22, 23, 24, 25, 26, 27, 28, 29, 30, 31, 32]),
-        (Iupac, St::Usize) => arms!(kgen, IupacC, usize, k, req, [1, 2, 3, 4, 5, 6, 7, 8, 9, 10, 11, 12, 13, 14, 15, 16]),
-        (Amino, St::Usize) => arms!(kgen, AminoC, usize, k, req, [1, 2, 3, 4, 5, 6, 7, 8, 9, 10]),
-        (Text, St::Usize) => arms!(kgen, TextC, usize, k, req, [1, 2, 3, 4, 5, 6, 7, 8]),
-        (MDna, St::Usize) => arms!(kgen, MDnaC, usize, k, req, [1, 2, 3, 4, 5, 6, 7, 8, 9, 10, 11, 12, 13, 14, 15, 16]),
-        (MIupac, St::Usize) => arms!(kgen, MIupacC, usize, k, req, [1, 2, 3, 4, 5, 6, 7, 8, 9, 10, 11, 12]),
-        (Degen, St::Usize) => arms!(
-            kgen, DegenC, usize, k, req,
-            [1, 2, 3, 4, 5, 6, 7, 8, 9, 10, 11, 12, 13, 14, 15, 16, 17, 18, 19, 20, 21, 22, 23, 24, 25, 26, 27, 28, 29, 30, 31, 32, 33, 34, 35, 36, 37, 38, 39, 40, 41, 42, 43, 44, 45, 46, 47, 48, 49, 50, 51, 52, 53, 54, 55, 56, 57, 58, 59, 60, 61, 62, 63, 64]
-        ),
-        (Dna, St::U64) => arms!(kgen, DnaC, u64, k, req, [1, 2, 3, 4, 5, 6, 7, 8, 9, 10, 11, 12, 13, 14, 15, 16, 17, 18, 19, 20, 21, 22, 23, 24, 25, 26, 27, 28, 29, 30, 31, 32]),
-        (Iupac, St::U64) => arms!(kgen, IupacC, u64, k, req, [1, 2, 3, 4, 5, 6, 7, 8, 9, 10, 11, 12, 13, 14, 15, 16]),
-        (Amino, St::U64) => arms!(kgen, AminoC, u64, k, req, [1, 2, 3, 4, 5, 6, 7, 8, 9, 10]),
-        (Text, St::U64) => arms!(kgen, TextC, u64, k, req, [1, 2, 3, 4, 5, 6, 7, 8]),
-        (MDna, St::U64) => arms!(kgen, MDnaC, u64, k, req, [1, 2, 8, 15, 16]),
-        (MIupac, St::U64) => arms!(kgen, MIupacC, u64, k, req, [1, 2, 6, 11, 12]),
-        (Degen, St::U64) => arms!(kgen, DegenC, u64, k, req, [1, 2, 32, 63, 64]),
-        (Dna, St::U128) => arms!(
-            kgen, DnaC, u128, k, req,
-            [1, 2, 3, 4, 5, 6, 7, 8, 9, 10, 11, 12, 13, 14, 15, 16, 17, 18, 19, 20, 21, 22, 23, 24, 25, 26, 27, 28, 29, 30, 31, 32, 33, 34, 35, 36, 37, 38, 39, 40, 41, 42, 43, 44, 45, 46, 47, 48, 49, 50, 51, 52, 53, 54, 55, 56, 57, 58, 59, 60, 61, 62, 63, 64]
-        ),
-        (Iupac, St::U128) => arms!(kgen, IupacC, u128, k, req, [1, 2, 3, 4, 5, 6, 7, 8, 9, 10, 11, 12, 13, 14, 15, 16, 17, 18, 19, 20, 21, 22, 23, 24, 25, 26, 27, 28, 29, 30, 31, 32]),
-        (Amino, St::U128) => arms!(kgen, AminoC, u128, k, req, [1, 2, 3, 4, 5, 6, 7, 8, 9, 10, 11, 12, 13, 14, 15, 16, 17, 18, 19, 20, 21]),
-        (Text, St::U128) => arms!(kgen, TextC, u128, k, req, [1, 2, 3, 4, 5, 6, 7, 8, 9, 10, 11, 12, 13, 14, 15, 16]),
-        (MDna, St::U128) => arms!(kgen, MDnaC, u128, k, req, [1, 2, 15, 16, 17, 31, 32]),
-        (MIupac, St::U128) => arms!(kgen, MIupacC, u128, k, req, [1, 2, 12, 13, 14, 24, 25]),
-        (Degen, St::U128) => arms!(kgen, DegenC, u128, k, req, [1, 2, 63, 64, 65, 127, 128]),
-        (Tri, St::Usize) => arms!(kgen, TriC, usize, k, req, [1, 2, 3, 10, 20, 21]),
-        (Tri, St::U64) => arms!(kgen, TriC, u64, k, req, [1, 2, 21]),
-        (Tri, St::U128) => arms!(kgen, TriC, u128, k, req, [1, 2, 21, 22, 42]),
-        (Sept, St::Usize) => arms!(kgen, SeptC, usize, k, req, [1, 2, 8, 9]),
-        (Sept, St::U64) => arms!(kgen, SeptC, u64, k, req, [1, 9]),
-        (Sept, St::U128) => arms!(kgen, SeptC, u128, k, req, [1, 9, 10, 18]),
-        (Oct, St::Usize) => arms!(kgen, OctC, usize, k, req, [1, 2, 7, 8]),
-        (Oct, St::U64) => arms!(kgen, OctC, u64, k, req, [1, 8]),
-        (Oct, St::U128) => arms!(kgen, OctC, u128, k, req, [1, 8, 9, 16]),
-        (Duo, St::Usize) => arms!(kgen, DuoC, usize, k, req, [1, 2, 3, 4, 5, 15, 16, 17, 31, 32]),
-        (Duo, St::U64) => arms!(kgen, DuoC, u64, k, req, [1, 2, 16, 31, 32]),
-        (Duo, St::U128) => arms!(kgen, DuoC, u128, k, req, [1, 2, 32, 33, 63, 64]),
-        (Uno, St::Usize) => arms!(kgen, UnoC, usize, k, req, [1, 2, 7, 8, 9, 10, 16, 33, 63, 64]),
-        (Uno, St::U64) => arms!(kgen, UnoC, u64, k, req, [1, 2, 8, 64]),
-        (Uno, St::U128) => arms!(kgen, UnoC, u128, k, req, [1, 9, 64, 65, 128]),
+    #[cfg(not(feature = "kmer-tables"))]
+    {
+        let _ = (id, k, st, req);
+        None
+    }
+    #[cfg(feature = "kmer-tables")]
+    {
+        use CodecId::*;
+        match (id, st) {
+            (Dna, St::Usize) => arms!(kgen, DnaC, usize, k, req, [1, 2, 3, 4, 5, 6, 7, 8, 9, 10, 11, 12, 13, 14, 15, 16, 17, 18, 19, 20, 21, 22, 23, 24, 25, 26, 27, 28, 29, 30, 31, 32]),
+            (Iupac, St::Usize) => arms!(kgen, IupacC, usize, k, req, [1, 2, 3, 4, 5, 6, 7, 8, 9, 10, 11, 12, 13, 14, 15, 16]),
+            (Amino, St::Usize) => arms!(kgen, AminoC, usize, k, req, [1, 2, 3, 4, 5, 6, 7, 8, 9, 10]),
+            (Text, St::Usize) => arms!(kgen, TextC, usize, k, req, [1, 2, 3, 4, 5, 6, 7, 8]),
+            (MDna, St::Usize) => arms!(kgen, MDnaC, usize, k, req, [1, 2, 3, 4, 5, 6, 7, 8, 9, 10, 11, 12, 13, 14, 15, 16]),
+            (MIupac, St::Usize) => arms!(kgen, MIupacC, usize, k, req, [1, 2, 3, 4, 5, 6, 7, 8, 9, 10, 11, 12]),
+            (Degen, St::Usize) => arms!(
+                kgen, DegenC, usize, k, req,
+                [1, 2, 3, 4, 5, 6, 7, 8, 9, 10, 11, 12, 13, 14, 15, 16, 17, 18, 19, 20, 21, 22, 23, 24, 25, 26, 27, 28, 29, 30, 31, 32, 33, 34, 35, 36, 37, 38, 39, 40, 41, 42, 43, 44, 45, 46, 47, 48, 49, 50, 51, 52, 53, 54, 55, 56, 57, 58, 59, 60, 61, 62, 63, 64]
+            ),
+            (Dna, St::U64) => arms!(kgen, DnaC, u64, k, req, [1, 2, 3, 4, 5, 6, 7, 8, 9, 10, 11, 12, 13, 14, 15, 16, 17, 18, 19, 20, 21, 22, 23, 24, 25, 26, 27, 28, 29, 30, 31, 32]),
+            (Iupac, St::U64) => arms!(kgen, IupacC, u64, k, req, [1, 2, 3, 4, 5, 6, 7, 8, 9, 10, 11, 12, 13, 14, 15, 16]),
+            (Amino, St::U64) => arms!(kgen, AminoC, u64, k, req, [1, 2, 3, 4, 5, 6, 7, 8, 9, 10]),
+            (Text, St::U64) => arms!(kgen, TextC, u64, k, req, [1, 2, 3, 4, 5, 6, 7, 8]),
+            (MDna, St::U64) => arms!(kgen, MDnaC, u64, k, req, [1, 2, 8, 15, 16]),
+            (MIupac, St::U64) => arms!(kgen, MIupacC, u64, k, req, [1, 2, 6, 11, 12]),
+            (Degen, St::U64) => arms!(kgen, DegenC, u64, k, req, [1, 2, 32, 63, 64]),
+            (Dna, St::U128) => arms!(
+                kgen, DnaC, u128, k, req,
+                [1, 2, 3, 4, 5, 6, 7, 8, 9, 10, 11, 12, 13, 14, 15, 16, 17, 18, 19, 20, 21, 22, 23, 24, 25, 26, 27, 28, 29, 30, 31, 32, 33, 34, 35, 36, 37, 38, 39, 40, 41, 42, 43, 44, 45, 46, 47, 48, 49, 50, 51, 52, 53, 54, 55, 56, 57, 58, 59, 60, 61, 62, 63, 64]
+            ),
+            (Iupac, St::U128) => arms!(kgen, IupacC, u128, k, req, [1, 2, 3, 4, 5, 6, 7, 8, 9, 10, 11, 12, 13, 14, 15, 16, 17, 18, 19, 20, 21, 22, 23, 24, 25, 26, 27, 28, 29, 30, 31, 32]),
+            (Amino, St::U128) => arms!(kgen, AminoC, u128, k, req, [1, 2, 3, 4, 5, 6, 7, 8, 9, 10, 11, 12, 13, 14, 15, 16, 17, 18, 19, 20, 21]),
+            (Text, St::U128) => arms!(kgen, TextC, u128, k, req, [1, 2, 3, 4, 5, 6, 7, 8, 9, 10, 11, 12, 13, 14, 15, 16]),
+            (MDna, St::U128) => arms!(kgen, MDnaC, u128, k, req, [1, 2, 15, 16, 17, 31, 32]),
+            (MIupac, St::U128) => arms!(kgen, MIupacC, u128, k, req, [1, 2, 12, 13, 14, 24, 25]),
+            (Degen, St::U128) => arms!(kgen, DegenC, u128, k, req, [1, 2, 63, 64, 65, 127, 128]),
+            (Tri, St::Usize) => arms!(kgen, TriC, usize, k, req, [1, 2, 3, 10, 20, 21]),
+            (Tri, St::U64) => arms!(kgen, TriC, u64, k, req, [1, 2, 21]),
+            (Tri, St::U128) => arms!(kgen, TriC, u128, k, req, [1, 2, 21, 22, 42]),
+            (Sept, St::Usize) => arms!(kgen, SeptC, usize, k, req, [1, 2, 8, 9]),
+            (Sept, St::U64) => arms!(kgen, SeptC, u64, k, req, [1, 9]),
+            (Sept, St::U128) => arms!(kgen, SeptC, u128, k, req, [1, 9, 10, 18]),
+            (Oct, St::Usize) => arms!(kgen, OctC, usize, k, req, [1, 2, 7, 8]),
+            (Oct, St::U64) => arms!(kgen, OctC, u64, k, req, [1, 8]),
+            (Oct, St::U128) => arms!(kgen, OctC, u128, k, req, [1, 8, 9, 16]),
+            (Duo, St::Usize) => arms!(kgen, DuoC, usize, k, req, [1, 2, 3, 4, 5, 15, 16, 17, 31, 32]),
+            (Duo, St::U64) => arms!(kgen, DuoC, u64, k, req, [1, 2, 16, 31, 32]),
+            (Duo, St::U128) => arms!(kgen, DuoC, u128, k, req, [1, 2, 32, 33, 63, 64]),
+            (Uno, St::Usize) => arms!(kgen, UnoC, usize, k, req, [1, 2, 7, 8, 9, 10, 16, 33, 63, 64]),
+            (Uno, St::U64) => arms!(kgen, UnoC, u64, k, req, [1, 2, 8, 64]),
+            (Uno, St::U128) => arms!(kgen, UnoC, u128, k, req, [1, 9, 64, 65, 128]),
+        }
     }
 }
 
 /// ordering requests (Cmp, Sort) for the codecs whose k-mers are `Ord`
 pub fn kcall_ord(id: CodecId, k: usize, st: St, req: &KReq) -> Option<R<KRes>> {
-    use CodecId::*;
-    match (id, st) {
-        (Dna, St::Usize) => arms!(kord, DnaC, usize, k, req, [1, 2, 3, 4, 5, 6, 7, 8, 9, 10, 11, 12, 13, 14, 15, 16, 17, 18, 19, 20, 21, 22, 23, 24, 25, 26, 27, 28, 29, 30, 31, 32]),
-        (Text, St::Usize) => arms!(kord, TextC, usize, k, req, [1, 2, 3, 4, 5, 6, 7, 8]),
-        (MDna, St::Usize) => arms!(kord, MDnaC, usize, k, req, [1, 2, 3, 4, 5, 6, 7, 8, 9, 10, 11, 12, 13, 14, 15, 16]),
-        (MIupac, St::Usize) => arms!(kord, MIupacC, usize, k, req, [1, 2, 3, 4, 5, 6, 7, 8, 9, 10, 11, 12]),
-        (Degen, St::Usize) => arms!(
-            kord, DegenC, usize, k, req,
-            [1, 2, 3, 4, 5, 6, 7, 8, 9, 10, 11, 12, 13, 14, 15, 16, 17, 18, 19, 20, 21, 22, 23, 24, 25, 26, 27, 28, 29, 30, 31, 32, 33, 34, 35, 36, 37, 38, 39, 40, 41, 42, 43, 44, 45, 46, 47, 48, 49, 50, 51, 52, 53, 54, 55, 56, 57, 58, 59, 60, 61, 62, 63, 64]
-        ),
-        (Dna, St::U64) => arms!(kord, DnaC, u64, k, req, [1, 2, 3, 4, 5, 6, 7, 8, 9, 10, 11, 12, 13, 14, 15, 16, 17, 18, 19, 20, 21, 22, 23, 24, 25, 26, 27, 28, 29, 30, 31, 32]),
-        (Text, St::U64) => arms!(kord, TextC, u64, k, req, [1, 2, 3, 4, 5, 6, 7, 8]),
-        (MDna, St::U64) => arms!(kord, MDnaC, u64, k, req, [1, 2, 8, 15, 16]),
-        (MIupac, St::U64) => arms!(kord, MIupacC, u64, k, req, [1, 2, 6, 11, 12]),
-        (Degen, St::U64) => arms!(kord, DegenC, u64, k, req, [1, 2, 32, 63, 64]),
-        (Dna, St::U128) => arms!(
-            kord, DnaC, u128, k, req,
-            [1, 2, 3, 4, 5, 6, 7, 8, 9, 10, 11, 12, 13, 14, 15, 16, 17, 18, 19, 20, 21, 22, 23, 24, 25, 26, 27, 28, 29, 30, 31, 32, 33, 34, 35, 36, 37, 38, 39, 40, 41, 42, 43, 44, 45, 46, 47, 48, 49, 50, 51, 52, 53, 54, 55, 56, 57, 58, 59, 60, 61, 62, 63, 64]
-        ),
-        (Text, St::U128) => arms!(kord, TextC, u128, k, req, [1, 2, 3, 4, 5, 6, 7, 8, 9, 10, 11, 12, 13, 14, 15, 16]),
-        (MDna, St::U128) => arms!(kord, MDnaC, u128, k, req, [1, 2, 15, 16, 17, 31, 32]),
-        (MIupac, St::U128) => arms!(kord, MIupacC, u128, k, req, [1, 2, 12, 13, 14, 24, 25]),
-        (Iupac, _) | (Amino, _) => None,
-        (Tri, St::Usize) => arms!(kord, TriC, usize, k, req, [1, 2, 3, 10, 20, 21]),
-        (Tri, St::U64) => arms!(kord, TriC, u64, k, req, [1, 2, 21]),
-        (Tri, St::U128) => arms!(kord, TriC, u128, k, req, [1, 2, 21, 22, 42]),
-        (Sept, St::Usize) => arms!(kord, SeptC, usize, k, req, [1, 2, 8, 9]),
-        (Sept, St::U64) => arms!(kord, SeptC, u64, k, req, [1, 9]),
-        (Sept, St::U128) => arms!(kord, SeptC, u128, k, req, [1, 9, 10, 18]),
-        (Oct, St::Usize) => arms!(kord, OctC, usize, k, req, [1, 2, 7, 8]),
-        (Oct, St::U64) => arms!(kord, OctC, u64, k, req, [1, 8]),
-        (Oct, St::U128) => arms!(kord, OctC, u128, k, req, [1, 8, 9, 16]),
-        (Duo, St::Usize) => arms!(kord, DuoC, usize, k, req, [1, 2, 3, 4, 5, 15, 16, 17, 31, 32]),
-        (Duo, St::U64) => arms!(kord, DuoC, u64, k, req, [1, 2, 16, 31, 32]),
-        (Duo, St::U128) => arms!(kord, DuoC, u128, k, req, [1, 2, 32, 33, 63, 64]),
-        (Uno, St::Usize) => arms!(kord, UnoC, usize, k, req, [1, 2, 7, 8, 9, 10, 16, 33, 63, 64]),
-        (Uno, St::U64) => arms!(kord, UnoC, u64, k, req, [1, 2, 8, 64]),
-        (Uno, St::U128) => arms!(kord, UnoC, u128, k, req, [1, 9, 64, 65, 128]),
-        (Degen, St::U128) => arms!(kord, DegenC, u128, k, req, [1, 2, 63, 64, 65, 127, 128]),
+    #[cfg(not(feature = "kmer-tables"))]
+    {
+        let _ = (id, k, st, req);
+        None
+    }
+    #[cfg(feature = "kmer-tables")]
+    {
+        use CodecId::*;
+        match (id, st) {
+            (Dna, St::Usize) => arms!(kord, DnaC, usize, k, req, [1, 2, 3, 4, 5, 6, 7, 8, 9, 10, 11, 12, 13, 14, 15, 16, 17, 18, 19, 20, 21, 22, 23, 24, 25, 26, 27, 28, 29, 30, 31, 32]),
+            (Text, St::Usize) => arms!(kord, TextC, usize, k, req, [1, 2, 3, 4, 5, 6, 7, 8]),
+            (MDna, St::Usize) => arms!(kord, MDnaC, usize, k, req, [1, 2, 3, 4, 5, 6, 7, 8, 9, 10, 11, 12, 13, 14, 15, 16]),
+            (MIupac, St::Usize) => arms!(kord, MIupacC, usize, k, req, [1, 2, 3, 4, 5, 6, 7, 8, 9, 10, 11, 12]),
+            (Degen, St::Usize) => arms!(
+                kord, DegenC, usize, k, req,
+                [1, 2, 3, 4, 5, 6, 7, 8, 9, 10, 11, 12, 13, 14, 15, 16, 17, 18, 19, 20, 21, 22, 23, 24, 25, 26, 27, 28, 29, 30, 31, 32, 33, 34, 35, 36, 37, 38, 39, 40, 41, 42, 43, 44, 45, 46, 47, 48, 49, 50, 51, 52, 53, 54, 55, 56, 57, 58, 59, 60, 61, 62, 63, 64]
+            ),
+            (Dna, St::U64) => arms!(kord, DnaC, u64, k, req, [1, 2, 3, 4, 5, 6, 7, 8, 9, 10, 11, 12, 13, 14, 15, 16, 17, 18, 19, 20, 21, 22, 23, 24, 25, 26, 27, 28, 29, 30, 31, 32]),
+            (Text, St::U64) => arms!(kord, TextC, u64, k, req, [1, 2, 3, 4, 5, 6, 7, 8]),
+            (MDna, St::U64) => arms!(kord, MDnaC, u64, k, req, [1, 2, 8, 15, 16]),
+            (MIupac, St::U64) => arms!(kord, MIupacC, u64, k, req, [1, 2, 6, 11, 12]),
+            (Degen, St::U64) => arms!(kord, DegenC, u64, k, req, [1, 2, 32, 63, 64]),
+            (Dna, St::U128) => arms!(
+                kord, DnaC, u128, k, req,
+                [1, 2, 3, 4, 5, 6, 7, 8, 9, 10, 11, 12, 13, 14, 15, 16, 17, 18, 19, 20, 21, 22, 23, 24, 25, 26, 27, 28, 29, 30, 31, 32, 33, 34, 35, 36, 37, 38, 39, 40, 41, 42, 43, 44, 45, 46, 47, 48, 49, 50, 51, 52, 53, 54, 55, 56, 57, 58, 59, 60, 61, 62, 63, 64]
+            ),
+            (Text, St::U128) => arms!(kord, TextC, u128, k, req, [1, 2, 3, 4, 5, 6, 7, 8, 9, 10, 11, 12, 13, 14, 15, 16]),
+            (MDna, St::U128) => arms!(kord, MDnaC, u128, k, req, [1, 2, 15, 16, 17, 31, 32]),
+            (MIupac, St::U128) => arms!(kord, MIupacC, u128, k, req, [1, 2, 12, 13, 14, 24, 25]),
+            (Iupac, _) | (Amino, _) => None,
+            (Tri, St::Usize) => arms!(kord, TriC, usize, k, req, [1, 2, 3, 10, 20, 21]),
+            (Tri, St::U64) => arms!(kord, TriC, u64, k, req, [1, 2, 21]),
+            (Tri, St::U128) => arms!(kord, TriC, u128, k, req, [1, 2, 21, 22, 42]),
+            (Sept, St::Usize) => arms!(kord, SeptC, usize, k, req, [1, 2, 8, 9]),
+            (Sept, St::U64) => arms!(kord, SeptC, u64, k, req, [1, 9]),
+            (Sept, St::U128) => arms!(kord, SeptC, u128, k, req, [1, 9, 10, 18]),
+            (Oct, St::Usize) => arms!(kord, OctC, usize, k, req, [1, 2, 7, 8]),
+            (Oct, St::U64) => arms!(kord, OctC, u64, k, req, [1, 8]),
+            (Oct, St::U128) => arms!(kord, OctC, u128, k, req, [1, 8, 9, 16]),
+            (Duo, St::Usize) => arms!(kord, DuoC, usize, k, req, [1, 2, 3, 4, 5, 15, 16, 17, 31, 32]),
+            (Duo, St::U64) => arms!(kord, DuoC, u64, k, req, [1, 2, 16, 31, 32]),
+            (Duo, St::U128) => arms!(kord, DuoC, u128, k, req, [1, 2, 32, 33, 63, 64]),
+            (Uno, St::Usize) => arms!(kord, UnoC, usize, k, req, [1, 2, 7, 8, 9, 10, 16, 33, 63, 64]),
+            (Uno, St::U64) => arms!(kord, UnoC, u64, k, req, [1, 2, 8, 64]),
+            (Uno, St::U128) => arms!(kord, UnoC, u128, k, req, [1, 9, 64, 65, 128]),
+            (Degen, St::U128) => arms!(kord, DegenC, u128, k, req, [1, 2, 63, 64, 65, 127, 128]),
+        }
     }
 }
 
 pub fn kcall_usize(id: CodecId, k: usize, req: &UReq) -> Option<R<URes>> {
-    use CodecId::*;
-    match id {
-        Dna => arms2!(kusize, DnaC, k, [1, 2, 3, 4, 5, 6, 7, 8, 9, 10, 11, 12, 13, 14, 15, 16, 17, 18, 19, 20, 21, 22, 23, 24, 25, 26, 27, 28, 29, 30, 31, 32], (req)),
-        Iupac => arms2!(kusize, IupacC, k, [1, 2, 3, 4, 5, 6, 7, 8, 9, 10, 11, 12, 13, 14, 15, 16], (req)),
-        Amino => arms2!(kusize, AminoC, k, [1, 2, 3, 4, 5, 6, 7, 8, 9, 10], (req)),
-        Text => arms2!(kusize, TextC, k, [1, 2, 3, 4, 5, 6, 7, 8], (req)),
-        MDna => arms2!(kusize, MDnaC, k, [1, 2, 3, 4, 5, 6, 7, 8, 9, 10, 11, 12, 13, 14, 15, 16], (req)),
-        MIupac => arms2!(kusize, MIupacC, k, [1, 2, 3, 4, 5, 6, 7, 8, 9, 10, 11, 12], (req)),
-        Degen => arms2!(
-            kusize, DegenC, k,
-            [1, 2, 3, 4, 5, 6, 7, 8, 9, 10, 11, 12, 13, 14, 15, 16, 17, 18, 19, 20, 21, 22, 23, 24, 25, 26, 27, 28, 29, 30, 31, 32, 33, 34, 35, 36, 37, 38, 39, 40, 41, 42, 43, 44, 45, 46, 47, 48, 49, 50, 51, 52, 53, 54, 55, 56, 57, 58, 59, 60, 61, 62, 63, 64], (req)),
-        Tri => arms2!(kusize, TriC, k, [1, 2, 3, 10, 20, 21], (req)),
-        Sept => arms2!(kusize, SeptC, k, [1, 2, 8, 9], (req)),
-        Oct => arms2!(kusize, OctC, k, [1, 2, 7, 8], (req)),
-        Duo => arms2!(kusize, DuoC, k, [1, 2, 3, 4, 5, 15, 16, 17, 31, 32], (req)),
-        Uno => arms2!(kusize, UnoC, k, [1, 2, 7, 8, 9, 10, 16, 33, 63, 64], (req)),
+    #[cfg(not(feature = "kmer-tables"))]
+    {
+        let _ = (id, k, req);
+        None
+    }
+    #[cfg(feature = "kmer-tables")]
+    {
+        use CodecId::*;
+        match id {
+            Dna => arms2!(kusize, DnaC, k, [1, 2, 3, 4, 5, 6, 7, 8, 9, 10, 11, 12, 13, 14, 15, 16, 17, 18, 19, 20, 21, 22, 23, 24, 25, 26, 27, 28, 29, 30, 31, 32], (req)),
+            Iupac => arms2!(kusize, IupacC, k, [1, 2, 3, 4, 5, 6, 7, 8, 9, 10, 11, 12, 13, 14, 15, 16], (req)),
+            Amino => arms2!(kusize, AminoC, k, [1, 2, 3, 4, 5, 6, 7, 8, 9, 10], (req)),
+            Text => arms2!(kusize, TextC, k, [1, 2, 3, 4, 5, 6, 7, 8], (req)),
+            MDna => arms2!(kusize, MDnaC, k, [1, 2, 3, 4, 5, 6, 7, 8, 9, 10, 11, 12, 13, 14, 15, 16], (req)),
+            MIupac => arms2!(kusize, MIupacC, k, [1, 2, 3, 4, 5, 6, 7, 8, 9, 10, 11, 12], (req)),
+            Degen => arms2!(
+                kusize, DegenC, k,
+                [1, 2, 3, 4, 5, 6, 7, 8, 9, 10, 11, 12, 13, 14, 15, 16, 17, 18, 19, 20, 21, 22, 23, 24, 25, 26, 27, 28, 29, 30, 31, 32, 33, 34, 35, 36, 37, 38, 39, 40, 41, 42, 43, 44, 45, 46, 47, 48, 49, 50, 51, 52, 53, 54, 55, 56, 57, 58, 59, 60, 61, 62, 63, 64], (req)),
+            Tri => arms2!(kusize, TriC, k, [1, 2, 3, 10, 20, 21], (req)),
+            Sept => arms2!(kusize, SeptC, k, [1, 2, 8, 9], (req)),
+            Oct => arms2!(kusize, OctC, k, [1, 2, 7, 8], (req)),
+            Duo => arms2!(kusize, DuoC, k, [1, 2, 3, 4, 5, 15, 16, 17, 31, 32], (req)),
+            Uno => arms2!(kusize, UnoC, k, [1, 2, 7, 8, 9, 10, 16, 33, 63, 64], (req)),
+        }
     }
 }
 
 pub fn kcall_minmax(id: CodecId, k: usize, spec: &SeqSpec) -> Option<R<(Option<KInfo>, Option<KInfo>, Vec<KInfo>)>> {
-    use CodecId::*;
-    match id {
-        Dna => arms2!(kminmax, DnaC, k, [1, 2, 3, 4, 5, 6, 7, 8, 9, 10, 11, 12, 13, 14, 15, 16, 17, 18, 19, 20, 21, 22, 23, 24, 25, 26, 27, 28, 29, 30, 31, 32], (spec)),
-        Text => arms2!(kminmax, TextC, k, [1, 2, 3, 4, 5, 6, 7, 8], (spec)),
-        MDna => arms2!(kminmax, MDnaC, k, [1, 2, 3, 4, 5, 6, 7, 8, 9, 10, 11, 12, 13, 14, 15, 16], (spec)),
-        MIupac => arms2!(kminmax, MIupacC, k, [1, 2, 3, 4, 5, 6, 7, 8, 9, 10, 11, 12], (spec)),
-        Degen => arms2!(kminmax, DegenC, k, [1, 2, 3, 4, 5, 6, 7, 8, 12, 16, 24, 31, 32, 33, 48, 63, 64], (spec)),
-        Iupac | Amino => None,
-        Tri => arms2!(kminmax, TriC, k, [1, 2, 3, 10, 20, 21], (spec)),
-        Sept => arms2!(kminmax, SeptC, k, [1, 2, 8, 9], (spec)),
-        Oct => arms2!(kminmax, OctC, k, [1, 2, 7, 8], (spec)),
-        Duo => arms2!(kminmax, DuoC, k, [1, 2, 3, 4, 5, 15, 16, 17, 31, 32], (spec)),
-        Uno => arms2!(kminmax, UnoC, k, [1, 2, 7, 8, 9, 10, 16, 33, 63, 64], (spec)),
+    #[cfg(not(feature = "kmer-tables"))]
+    {
+        let _ = (id, k, spec);
+        None
+    }
+    #[cfg(feature = "kmer-tables")]
+    {
+        use CodecId::*;
+        match id {
+            Dna => arms2!(kminmax, DnaC, k, [1, 2, 3, 4, 5, 6, 7, 8, 9, 10, 11, 12, 13, 14, 15, 16, 17, 18, 19, 20, 21, 22, 23, 24, 25, 26, 27, 28, 29, 30, 31, 32], (spec)),
+            Text => arms2!(kminmax, TextC, k, [1, 2, 3, 4, 5, 6, 7, 8], (spec)),
+            MDna => arms2!(kminmax, MDnaC, k, [1, 2, 3, 4, 5, 6, 7, 8, 9, 10, 11, 12, 13, 14, 15, 16], (spec)),
+            MIupac => arms2!(kminmax, MIupacC, k, [1, 2, 3, 4, 5, 6, 7, 8, 9, 10, 11, 12], (spec)),
+            Degen => arms2!(kminmax, DegenC, k, [1, 2, 3, 4, 5, 6, 7, 8, 12, 16, 24, 31, 32, 33, 48, 63, 64], (spec)),
+            Iupac | Amino => None,
+            Tri => arms2!(kminmax, TriC, k, [1, 2, 3, 10, 20, 21], (spec)),
+            Sept => arms2!(kminmax, SeptC, k, [1, 2, 8, 9], (spec)),
+            Oct => arms2!(kminmax, OctC, k, [1, 2, 7, 8], (spec)),
+            Duo => arms2!(kminmax, DuoC, k, [1, 2, 3, 4, 5, 15, 16, 17, 31, 32], (spec)),
+            Uno => arms2!(kminmax, UnoC, k, [1, 2, 7, 8, 9, 10, 16, 33, 63, 64], (spec)),
+        }
     }
 }
 
 /// `Kmer::<_,K,u64>::from(u64)` / `from(usize)`
 pub fn kcall_u64_from_int(id: CodecId, k: usize, i: u128, via_usize: bool) -> Option<R<KInfo>> {
-    use CodecId::*;
-    match id {
-        Dna => arms2!(ku64, DnaC, k, [1, 2, 3, 4, 5, 6, 7, 8, 9, 10, 11, 12, 13, 14, 15, 16, 17, 18, 19, 20, 21, 22, 23, 24, 25, 26, 27, 28, 29, 30, 31, 32], (i, via_usize)),
-        Iupac => arms2!(ku64, IupacC, k, [1, 2, 3, 4, 5, 6, 7, 8, 9, 10, 11, 12, 13, 14, 15, 16], (i, via_usize)),
-        Amino => arms2!(ku64, AminoC, k, [1, 2, 3, 4, 5, 6, 7, 8, 9, 10], (i, via_usize)),
-        Text => arms2!(ku64, TextC, k, [1, 2, 3, 4, 5, 6, 7, 8], (i, via_usize)),
-        MDna => arms2!(ku64, MDnaC, k, [1, 2, 8, 15, 16], (i, via_usize)),
-        MIupac => arms2!(ku64, MIupacC, k, [1, 2, 6, 11, 12], (i, via_usize)),
-        Degen => arms2!(ku64, DegenC, k, [1, 2, 32, 63, 64], (i, via_usize)),
-        Tri => arms2!(ku64, TriC, k, [1, 2, 21], (i, via_usize)),
-        Sept => arms2!(ku64, SeptC, k, [1, 9], (i, via_usize)),
-        Oct => arms2!(ku64, OctC, k, [1, 8], (i, via_usize)),
-        Duo => arms2!(ku64, DuoC, k, [1, 2, 16, 31, 32], (i, via_usize)),
-        Uno => arms2!(ku64, UnoC, k, [1, 2, 8, 64], (i, via_usize)),
+    #[cfg(not(feature = "kmer-tables"))]
+    {
+        let _ = (id, k, i, via_usize);
+        None
+    }
+    #[cfg(feature = "kmer-tables")]
+    {
+        use CodecId::*;
+        match id {
+            Dna => arms2!(ku64, DnaC, k, [1, 2, 3, 4, 5, 6, 7, 8, 9, 10, 11, 12, 13, 14, 15, 16, 17, 18, 19, 20, 21, 22, 23, 24, 25, 26, 27, 28, 29, 30, 31, 32], (i, via_usize)),
+            Iupac => arms2!(ku64, IupacC, k, [1, 2, 3, 4, 5, 6, 7, 8, 9, 10, 11, 12, 13, 14, 15, 16], (i, via_usize)),
+            Amino => arms2!(ku64, AminoC, k, [1, 2, 3, 4, 5, 6, 7, 8, 9, 10], (i, via_usize)),
+            Text => arms2!(ku64, TextC, k, [1, 2, 3, 4, 5, 6, 7, 8], (i, via_usize)),
+            MDna => arms2!(ku64, MDnaC, k, [1, 2, 8, 15, 16], (i, via_usize)),
+            MIupac => arms2!(ku64, MIupacC, k, [1, 2, 6, 11, 12], (i, via_usize)),
+            Degen => arms2!(ku64, DegenC, k, [1, 2, 32, 63, 64], (i, via_usize)),
+            Tri => arms2!(ku64, TriC, k, [1, 2, 21], (i, via_usize)),
+            Sept => arms2!(ku64, SeptC, k, [1, 9], (i, via_usize)),
+            Oct => arms2!(ku64, OctC, k, [1, 8], (i, via_usize)),
+            Duo => arms2!(ku64, DuoC, k, [1, 2, 16, 31, 32], (i, via_usize)),
+            Uno => arms2!(ku64, UnoC, k, [1, 2, 8, 64], (i, via_usize)),
+        }
     }
 }
 
 pub fn kcall_dna(k: usize, codes: &[u8]) -> Option<R<DnaOps>> {
-    macro_rules! d {
-        ($($K:literal),*) => { match k { $( $K => Some(kdna::<$K>(codes)), )* _ => None } };
+    #[cfg(not(feature = "kmer-tables"))]
+    {
+        let _ = (k, codes);
+        None
     }
-    d!(1, 2, 3, 4, 5, 6, 7, 8, 9, 10, 11, 12, 13, 14, 15, 16, 17, 18, 19, 20, 21, 22, 23, 24, 25, 26, 27, 28, 29, 30, 31, 32)
+    #[cfg(feature = "kmer-tables")]
+    {
+        macro_rules! d {
+            ($($K:literal),*) => { match k { $( $K => Some(kdna::<$K>(codes)), )* _ => None } };
+        }
+        d!(1, 2, 3, 4, 5, 6, 7, 8, 9, 10, 11, 12, 13, 14, 15, 16, 17, 18, 19, 20, 21, 22, 23, 24, 25, 26, 27, 28, 29, 30, 31, 32)
+    }
 }
 
 /// all instantiated (codec, storage, K)
